@@ -209,7 +209,31 @@ func vlTsText(base string, off int, prec string) (string, *big.Int) {
 		return "-", nil
 	case "leadingZeros":
 		return "007", new(big.Int).Mul(big.NewInt(7), mult)
+	case "multiwrap":
+		// |ts*mult| = k*2^64 + r + (less than mult): more than one wrap of int64
+		k := []int64{1, 2, 5}[off/4]
+		r := new(big.Int).Lsh(big.NewInt(1), 62)
+		if (off/2)%2 == 1 {
+			r.Add(r, new(big.Int).Lsh(big.NewInt(1), 63))
+		}
+		V := new(big.Int).Add(new(big.Int).Mul(big.NewInt(k), new(big.Int).Lsh(big.NewInt(1), 64)), r)
+		q, m := new(big.Int).QuoRem(V, mult, new(big.Int))
+		if m.Sign() != 0 {
+			q.Add(q, big.NewInt(1))
+		}
+		if off%2 == 1 {
+			q.Neg(q)
+		}
+		return q.String(), new(big.Int).Mul(q, mult)
 	default:
+		if strings.HasPrefix(base, "lit") {
+			q, ok := new(big.Int).SetString(base[3:], 10)
+			if !ok {
+				panic("bad literal timestamp " + base)
+			}
+			q.Mul(q, big.NewInt(int64(off)))
+			return q.String(), new(big.Int).Mul(q, mult)
+		}
 		panic("unknown ts base " + base)
 	}
 	v = new(big.Int).Add(v, big.NewInt(int64(off)))
@@ -647,6 +671,15 @@ func (c *vlChecker) checkLine(l *vlLine) (*vlRendered, *vlPoint) {
 	c.counters["lines"]++
 	if l.W >= 1 { // non-trivial: at least one element is not in its default form
 		c.forms[fmt.Sprintf("%v|%v|%v|%v|%v|%v|%v|%v|%s%d|%s|%s", l.Form.Lead, l.Form.Meas, l.Form.Tags, l.Form.Sep1, l.Form.Fields, l.Form.Sep2, l.Form.Tail, l.Pad, l.Ts.Base, l.Ts.Off, l.Prec, l.Expect.Res)] = true
+	}
+	if l.Ts.Base != "absent" {
+		if txt, v := vlTsText(l.Ts.Base, l.Ts.Off, l.Prec); v != nil {
+			t, isInt := new(big.Int).SetString(txt, 10)
+			inRange := isInt && t.IsInt64() && v.Cmp(vlMinNano) >= 0 && v.Cmp(vlMaxNano) <= 0
+			if (l.Expect.Res == "ok" && !inRange) || (l.Expect.Res == "reject" && l.Expect.Reason == "bad timestamp" && inRange) {
+				panic(fmt.Sprintf("LineProtocol.tla disagrees with the big-integer oracle: timestamp %s precision %s scaled %s, model says %s", txt, l.Prec, v, l.Expect.Res))
+			}
+		}
 	}
 	res := vlParse(text, l.Prec)
 	show := func() string {
